@@ -337,6 +337,11 @@ func c08Gen(tier string, seed int64) []core.Case {
 			p["flip"] = sp.Short
 			id := "flagflip/" + proto + "/" + sp.Short
 			cs = append(cs, core.Case{ID: id, Class: id, Kind: "flip", P: p, Cost: flipCfg[proto].cost})
+			// second variant: the wrong-channel copy is the only copy there is until the run is quiescent
+			ph := flipCfg[proto].P()
+			ph["flip"], ph["hold"] = sp.Short, true
+			idh := "flagflip-only/" + proto + "/" + sp.Short
+			cs = append(cs, core.Case{ID: idh, Class: idh, Kind: "flip", P: ph, Cost: flipCfg[proto].cost})
 		}
 	}
 	return cs
@@ -414,11 +419,20 @@ func c08Run(c core.Case, env *core.Env) core.Result {
 	}
 	mon := attachRoundMon(w, &r)
 	sched := sim.StartsThen(schedByName(c.P.Str("sched"), w))
+	var release func()
 	if c.Kind == "flip" {
-		c08Flip(&r, w, c.P.Str("flip"))
+		if c.P.Bool("hold") {
+			release = c08FlipOnly(&r, w, c.P.Str("flip"))
+		} else {
+			c08Flip(&r, w, c.P.Str("flip"))
+		}
 		sched = sim.StartsThen(sim.FIFO)
 	}
 	w.Run(sched, nil)
+	if release != nil {
+		release()
+		w.Run(sim.FIFO, nil)
+	}
 	noteRun(&r, w)
 	mon.finish()
 	if r.Verdict != core.Violated {
@@ -491,4 +505,50 @@ func c08Flip(r *core.Result, w *sim.World, typ string) {
 			}
 		}
 	})
+}
+
+// c08FlipOnly replaces every delivery of a message of type `typ` by a copy with the broadcast flag inverted and keeps the
+// genuine copies back. When the run is quiescent, no recipient may have got past the round that needs the message, and
+// each one must still await every sender; the returned function then checks that and releases the genuine copies.
+func c08FlipOnly(r *core.Result, w *sim.World, typ string) func() {
+	var genuine []*sim.Event
+	w.Rewrite = func(w *sim.World, m *sim.Msg, to *sim.Node) ([]byte, bool, *tss.PartyID, bool) {
+		if m.Short != typ {
+			return m.Wire, m.Bcast, m.From.PID, false
+		}
+		w.Inject(&sim.Event{Kind: sim.EvDeliver, Node: to, Msg: m, Wire: m.Wire, Bcast: !m.Bcast, FromPID: m.From.PID, Tag: "flip"})
+		genuine = append(genuine, &sim.Event{Kind: sim.EvDeliver, Node: to, Msg: m, Wire: m.Wire, Bcast: m.Bcast, FromPID: m.From.PID, Tag: "late"})
+		return nil, false, nil, true
+	}
+	return func() {
+		sp := sim.SpecOf(w.Proto, typ)
+		for _, ev := range genuine {
+			n := ev.Node
+			r.Count("flag_flips_checked", 1)
+			if len(n.Ended) > 0 {
+				r.Fail("flip:finished:"+typ, "%s finished although every %s reached it only with the broadcast flag inverted", n.Name, typ)
+				continue
+			}
+			cur := roundOf(n)
+			if n.Started && (cur > sp.Round || cur == 0) {
+				r.Fail("flip:advanced:"+typ, "%s is in round %d (past round %d) although every %s reached it only with the broadcast flag inverted", n.Name, cur, sp.Round, typ)
+				continue
+			}
+			if n.Started && cur == sp.Round {
+				still := false
+				for _, pid := range n.Party.WaitingFor() {
+					if pid.KeyInt().Cmp(ev.Msg.From.PID.KeyInt()) == 0 {
+						still = true
+					}
+				}
+				if !still {
+					r.Fail("flip:not-awaited:"+typ, "%s does not await %s although its %s arrived only on the wrong channel kind", n.Name, ev.Msg.From.Name, typ)
+				}
+			}
+		}
+		w.Rewrite = nil
+		for _, ev := range genuine {
+			w.Inject(ev)
+		}
+	}
 }
